@@ -168,6 +168,19 @@ def replay(item):
             except Exception as e:
                 o["err"] = type(e).__name__
             obs.append(o)
+    # mode names as a client may spell them (the tool does not enforce the enumeration): whatever view comes back, a view that dropped
+    # something says lossy=true (only NoInvention / Honest / FormatsAgree apply: these are not the complete modes' names)
+    for mode in ("Executive", "DEVELOPER ", " developer", "EXECUTIVE", "bogus"):
+        for fmt in ("octave", "json"):
+            o = {"route": "tool_spelled", "mode": mode, "format": fmt, "ok": False, "lossy": "-", "leaves": []}
+            try:
+                r = run_async(et.execute(content=text, schema="META", mode=mode, format=fmt))
+                o["lossy"] = "true" if r.get("lossy") is True else ("false" if r.get("lossy") is False else "-")
+                o["leaves"] = extract(fmt, r["output"])
+                o["ok"] = True
+            except Exception as e:
+                o["err"] = type(e).__name__
+            obs.append(o)
     return {"i": i, "case": {"body": case["body"]}, "obs": obs, "text": text}
 
 
